@@ -52,6 +52,7 @@ type Path struct {
 	Trace []Ev
 	End   string // return | panic | exit
 	Rets  []RV
+	RetB  []int         // boolean results folded at return time: 1 true, 0 false, -1 unknown / not bool
 	Mem   map[string]RV // final cell contents
 }
 
@@ -122,15 +123,7 @@ type PPA struct {
 
 // Run enumerates the paths of fn.
 func (e *PPA) Run(fn *ssa.Function) {
-	if e.MaxVisits == 0 {
-		e.MaxVisits = 2
-	}
-	if e.MaxPaths == 0 {
-		e.MaxPaths = 300000
-	}
-	if e.MaxDepth == 0 {
-		e.MaxDepth = 4
-	}
+	e.defaults()
 	e.Paths = nil
 	e.Overflow = false
 	e.Truncated = 0
@@ -140,6 +133,91 @@ func (e *PPA) Run(fn *ssa.Function) {
 		return
 	}
 	e.enter(e.root, nil, fn.Blocks[0], st, nil)
+}
+
+// RunClosure enumerates the paths of the function literal created by mc; its
+// free variables resolve to the binding values in the enclosing function.
+func (e *PPA) RunClosure(mc *ssa.MakeClosure) {
+	fn := mc.Fn.(*ssa.Function)
+	e.defaults()
+	e.Paths = nil
+	e.Overflow = false
+	e.Truncated = 0
+	outer := e.newFrame(mc.Parent(), nil, nil, nil, nil)
+	var bind []RV
+	for _, b := range mc.Bindings {
+		bind = append(bind, RV{outer, b})
+	}
+	e.root = e.newFrame(fn, nil, nil, bind, nil)
+	if len(fn.Blocks) == 0 {
+		return
+	}
+	st := newState()
+	// captured variables assigned exactly once in the enclosing function are
+	// known inside the closure
+	for _, b := range mc.Bindings {
+		if a, ok := b.(*ssa.Alloc); ok {
+			if v := singleStore(a); v != nil {
+				if key, ok := e.cellKey(st, RV{outer, a}); ok {
+					st.mem[key] = RV{outer, v}
+				}
+			}
+		}
+	}
+	e.enter(e.root, nil, fn.Blocks[0], st, nil)
+}
+
+// singleStore returns the only value ever stored into the local cell a
+// (looking through closures that capture it), or nil.
+func singleStore(a *ssa.Alloc) ssa.Value {
+	var val ssa.Value
+	n := 0
+	var visit func(addr ssa.Value, depth int) bool
+	visit = func(addr ssa.Value, depth int) bool {
+		if depth > 4 || addr.Referrers() == nil {
+			return false
+		}
+		for _, r := range *addr.Referrers() {
+			switch x := r.(type) {
+			case *ssa.Store:
+				if x.Addr == addr {
+					n++
+					val = x.Val
+				} else {
+					return false // address escapes
+				}
+			case *ssa.UnOp, *ssa.DebugRef:
+			case *ssa.MakeClosure:
+				fn := x.Fn.(*ssa.Function)
+				for i, b := range x.Bindings {
+					if b == addr && i < len(fn.FreeVars) {
+						if !visit(fn.FreeVars[i], depth+1) {
+							return false
+						}
+					}
+				}
+			default:
+				return false
+			}
+		}
+		return true
+	}
+	if !visit(a, 0) || n != 1 {
+		return nil
+	}
+	return val
+}
+
+func (e *PPA) defaults() {
+	if e.MaxVisits == 0 {
+		e.MaxVisits = 2
+	}
+	if e.MaxPaths == 0 {
+		e.MaxPaths = 300000
+	}
+	if e.MaxDepth == 0 {
+		e.MaxDepth = 4
+	}
 }
 
 func (e *PPA) newFrame(fn *ssa.Function, parent *Frame, args, bind []RV, call ssa.Instruction) *Frame {
@@ -286,11 +364,24 @@ func (e *PPA) finish(st *State, end string, rets []RV) {
 		e.Overflow = true
 		return
 	}
+	var retb []int
+	for _, r := range rets {
+		b := -1
+		if bt, ok := r.V.Type().Underlying().(*types.Basic); ok && bt.Kind() == types.Bool {
+			if v, known := e.evalCond(st, r); known {
+				b = 0
+				if v {
+					b = 1
+				}
+			}
+		}
+		retb = append(retb, b)
+	}
 	mem := map[string]RV{}
 	for k, v := range st.mem {
 		mem[k] = v
 	}
-	e.Paths = append(e.Paths, Path{Trace: append([]Ev(nil), st.trace...), End: end, Rets: rets, Mem: mem})
+	e.Paths = append(e.Paths, Path{Trace: append([]Ev(nil), st.trace...), End: end, Rets: rets, RetB: retb, Mem: mem})
 }
 
 // enter moves control into block b of frame fr coming from block from.
